@@ -1,4 +1,8 @@
 # -*- coding: utf-8 -*-
+
+from vsg import severity
+
+
 def print_output(dRunInfo):
     """
     Displays results to stdout in a compact format.
@@ -11,7 +15,8 @@ def print_output(dRunInfo):
 
     sOutputString += " "
 
-    if dRunInfo["severities"]["Error"] == 0:
+    bErrorFound = error_type_violation_found(dRunInfo)
+    if not bErrorFound:
         sOutputString += "OK"
     else:
         sOutputString += "ERROR"
@@ -28,7 +33,14 @@ def print_output(dRunInfo):
         sOutputString += ": "
         sOutputString += str(dRunInfo["severities"][sSeverity])
         sOutputString += "]"
-    if dRunInfo["severities"]["Error"] == 0:
+    if not bErrorFound:
         return sOutputString, None
     else:
         return None, sOutputString
+
+
+def error_type_violation_found(dRunInfo):
+    for dViolation in dRunInfo["violations"]:
+        if dViolation["severity"]["type"] == severity.error_type:
+            return True
+    return False
